@@ -93,7 +93,7 @@ fn templates(rng: &mut Rng, exhaustive_len: usize, n_random: usize) -> Vec<Strin
         v.extend(next.iter().cloned());
         frontier = next;
     }
-    let pieces = ["$$", "$0", "$1", "$2", "$3", "$10", "$01", "$99", "${a}", "${n}", "${}", "${nope}", "${é}", "${a", "$", "$x", "é", "-", "\u{10000}", "$65535", "$65536", "$123456789", "{", "}", "${a}}", "$$1", "$ 1", "$²", "$①", "$１", "$½", "$٣0", "1$", "$-1", "$+1", "${1}", "${0}", "$\u{0}", "${ a}", "$ {a}"];
+    let pieces = ["$$", "$0", "$1", "$2", "$3", "$10", "$01", "$99", "${a}", "${n}", "${}", "${nope}", "${é}", "${a", "$", "$x", "é", "-", "\u{10000}", "$65535", "$65536", "$123456789", "$000002", "$0000012", "$000000", "$0000001", "$00010", "$000000000000000000001", "$065535", "$0065536", "$00000x", "$000001${a}", "{", "}", "${a}}", "$$1", "$ 1", "$²", "$①", "$１", "$½", "$٣0", "1$", "$-1", "$+1", "${1}", "${0}", "$\u{0}", "${ a}", "$ {a}"];
     for _ in 0..n_random {
         let k = rng.range(1, 5);
         let mut s = String::new();
